@@ -32,12 +32,37 @@ def _between_validate_and_etag(rng):
     return choose
 
 
+def _other_commits_after_k(k):
+    """actor 1 passes k gated operations, then actor 2 commits completely, then actor 1 goes on"""
+    def mk(rng):
+        def choose(s, ready):
+            n1 = len([1 for a, _w in s.trace if a == 1])
+            if n1 < k and 1 in ready:
+                return 1
+            if 2 in ready:
+                return 2
+            return sorted(ready)[0]
+        return choose
+    return mk
+
+
 def cases(ctx):
     rng = ctx.rng("cases")
     out = []
     for kinds in (["append", "append"], ["delsnap", "append"], ["delfiles", "append"]):
         out.append({"backend": "s3cas", "topology": "separate", "clock": "real", "actors": 2, "kinds": kinds, "lock": "none",
                     "chooser": _between_validate_and_etag, "model_cfg": NOLOCK_CFG})
+    # the real lock: actor 1 validates, its lease lapses, actor 2 takes the lock over and commits, actor 1 resumes at its fencing check
+    for kinds in (["append", "append"], ["delsnap", "append"], ["append", "expire"]):
+        out.append({"backend": "s3cas", "topology": "separate", "clock": "real", "actors": 2, "kinds": kinds, "lock": "takeover",
+                    "chooser": _between_validate_and_etag, "model_cfg": NOLOCK_CFG})
+    # the pointer object is missing (lost hint): both committers recover by listing; the commit point must still be create-if-absent
+    for lock in ("none", "none", "none", "real"):
+        out.append({"backend": "s3cas", "topology": "separate", "clock": "real", "actors": 2, "kinds": ["append", "append"], "lock": lock,
+                    "drop_hint": True, "no_model": True})
+    for k in range(0, 60, 1 if ctx.thorough else 3):
+        out.append({"backend": "s3cas", "topology": "separate", "clock": "real", "actors": 2, "kinds": ["append", "append"], "lock": "none",
+                    "drop_hint": True, "no_model": True, "chooser": _other_commits_after_k(k)})
     # a committer whose fencing check fails must report a conflict
     out.append({"backend": "s3cas", "topology": "separate", "clock": "real", "actors": 2, "kinds": ["append", "append"], "lock": "none",
                 "held_script": {1: [False, True, True]}, "model_cfg": NOLOCK_CFG})
